@@ -4,7 +4,7 @@ TB = "Trusted base: Qiskit/numpy axioms Q1-Q5, N1 of DESIGN.md section 2.3 (comp
 
 CLAIMS = {
  "C02": dict(ref="DESIGN.md 4/C02", technique="static analysis: table lint (edge membership of all two-qubit tokens) + circuit-term abstract interpretation of the API call closure + exact partial evaluation of the coupling-graph builders",
-   text="Decides the property under the trusted base: every two-qubit token of all advertised table files lies on a documented edge (T4, exhaustive), the loader turns a token into exactly that gate on exactly those qubits (K1), every circuit-returning API takes its two-qubit gates only from the table of the requested (n, connectivity) mapped through the caller's qubit list (P1-P3 over circuit terms), and the coupling graphs built by the code equal the documented edge sets (G3).",
+   text="Decides the property under the trusted base: every two-qubit token of all advertised table files lies on a documented edge (T4, exhaustive), the loader appends nothing but a token's own gate on exactly the written qubits, under every calling convention the API uses (K1), every circuit-returning API takes its two-qubit gates only from the table of the requested (n, connectivity) mapped through the caller's qubit list (P1-P3 over circuit terms; a two-qubit gate emitted by glue code or a table other than the requested one is judged violation / contained / undecidable=exit 2), and the coupling graphs built by the code equal the documented edge sets (G3).",
    note=TB),
  "C03": dict(ref="DESIGN.md 4/C03", technique="static analysis: circuit-term abstract interpretation (inverse parity), non-interference (no read of the sign field in the over-approximated call closure), literal lint of the cancellation list",
    text="Partial: decides that the readout is exactly the inverse of the sign-free preparation term (P4), that this term cannot depend on the generators' signs (NI1: zero reads of the sign field in an over-approximated call closure) and that the cancellation pass lists only self-inverse gates (P5). Does NOT decide that the sign-free preparation term prepares the state (value-level).",
@@ -19,7 +19,7 @@ CLAIMS = {
    text="Partial: decides that the input circuit is never mutated (A4), that the output obeys the connectivity (C02 rules) and that the output's two-qubit cost is the class cost independent of the input's length (P6+T5: the caller's circuit is not a leaf of the result term). Does NOT decide 'prepares the same state' (value-level).",
    note=TB),
  "C08": dict(ref="DESIGN.md 4/C08", technique="static analysis: sibling agreement by exact partial evaluation of the gate predicate over an enumerated grid + dominance (must-pass-through) of the gate before every table access + flag propagation",
-   text="Partial: decides the configuration clause (five sibling definitions of the supported set agree with the 20 advertised pairs; the set of pairs each public entry point can serve is exactly those 20) and that the underconstrained-input check of the sign-reference synthesis is never relaxed on the API path (G4). Also decides a necessary condition of 'the validity check accepts exactly the commuting independent sets': its verdict does not depend on the signs (NI2). Does NOT decide 'raise or be correct' for arbitrary invalid Pauli sets (value-level).",
+   text="Partial: decides the configuration clause (five sibling definitions of the supported set agree with the 20 advertised pairs; a gate call on the entry's own (qubit count, connectivity) precedes every table read (G2); no raise path of an entry point can be taken by a valid request for an advertised pair (G6)) and that the underconstrained-input check of the sign-reference synthesis is never relaxed on the API path (G4). Also decides a necessary condition of 'the validity check accepts exactly the commuting independent sets': its verdict does not depend on the signs (NI2). Does NOT decide 'raise or be correct' for arbitrary invalid Pauli sets (value-level).",
    note=TB),
  "C09": dict(ref="DESIGN.md 4/C09", technique="static analysis: table lint incl. exhaustive GF(2) arithmetic on the basis literals + def-use wiring of the info API + paired-event path rule",
    text="Partial: decides 2^n+1 lines x n strings, commuting/independent/partition of the Pauli group on the literals (T7, T9 exhaustive), header = (sum, max, max depth) of the lines (T8), info API wired to the right header fields and to 2^n+1 (W8), the two returned lists built pairwise from the same lines and returned unpermuted (W9). Does NOT decide 'i-th circuit diagonalises i-th basis' nor 'MUB cost <= readout cost' (value-level).",
@@ -28,7 +28,7 @@ CLAIMS = {
    text="Partial (necessary conditions): bit-order consistency count key -> bitstring -> Z mask -> Pauli (B1); k-th circuit fitted with k-th counts and its own readout (W2, W3); pull-back/sign conjugation directions (W4); one mask for Pauli and estimator (W5); sign, parity, accumulation and 2^-n tables (S1-S3). Does NOT decide that Pauli.evolve realises those conjugations, hence not exactness for all rho.",
    note=TB),
  "C11": dict(ref="DESIGN.md 4/C11", technique="static analysis: bit-order / index-role qualifier inference on the marginalisation and re-embedding code",
-   text="Partial (core clause): marginalisation selects exactly the listed qubits in the listed order and bit significance (B2), readout composed onto the listed qubits in order (P3, W1), re-embedding writes factor j at register position q_j (B3). Values of expectations as C10.",
+   text="Partial (core clause): marginalisation selects exactly the listed qubits in the listed order and bit significance (B2), readout composed onto the listed qubits in order (P3, W1), the fitter marginalises onto exactly the stored list (W11), outcome histograms add up marginal outcomes that coincide (H1), re-embedding writes factor j at register position q_j (B3). Values of expectations as C10.",
    note=TB),
  "C12": dict(ref="DESIGN.md 4/C12", technique="static analysis: loop-domain evaluation, typestate on the key variable, plus the C10 wiring rules",
    text="Partial: 2^n entries (mask loop domain + identity entry, W6), keys unsigned (typestate W7), same wiring/direction/sign/parity/bit-order rules as C10, readout is the inverted sign-free circuit (P4). Sign correctness inside Pauli.evolve is trusted.",
